@@ -1,63 +1,15 @@
 """C10 -- public pose Jacobian methods are exact derivatives."""
 import json
-import os
 
-import vlib
-import check
-import corr_poses
 import oracle_poses
-
-THEOREMS = ['C10']
-CORPUS = os.path.join(vlib.VERIF, 'corpus', 'poses.json')
+from props import _posecommon
 
 
 def run(rep, tier, seed):
-    rep.cov['trusted_base'] += [
-        'numpy float64 + - * / sqrt = IEEE binary64 = Coq PrimFloat; numpy sin/cos values taken as given (table lookup)',
-        'modelled, not verified: ndarray views/dtype coercion in __new__, Python operator dispatch as read by the translator']
-    ok, info = check.proof_stage(rep, 'C10', THEOREMS, 'Jacobian obligations for 12 methods x 4 pose classes, regenerated from pose/*.py')
-    summ = info['summary'].get('tr_poses.py', {})
-    unsup = check.unsupported_defs({'p': summ}, lambda d: 'jacobian' in d or '_add__' in d or '_sub__' in d or d.endswith('_inverse'))
-    rep.obligation('translator accepted every Jacobian/operation definition used by C10', not unsup, ', '.join(unsup))
-    # correspondence 4.1
-    per = 3 if tier == 'quick' else 40
-    corpus = json.load(open(CORPUS)) if os.path.exists(CORPUS) else []
-    corr = corr_poses.run(summ, seed, per, corpus) if 'defs' in summ else {'evaluations': 0, 'agree': 0, 'disagreements': [], 'coq_errors': [{'out': 'no translator summary'}], 'components': 0, 'exact_components': 0, 'hist': {}}
-    rep.cov['traces_validated_against_impl'] = corr['agree']
-    rep.cov['correspondence'] = {k: corr[k] for k in ('evaluations', 'agree', 'components', 'exact_components', 'hist')}
-    rep.cov['correspondence']['coq_errors'] = len(corr['coq_errors'])
-    corr_ok = not corr['disagreements'] and not corr['coq_errors'] and corr['evaluations'] > 0
-    rep.obligation('correspondence: generated pose definitions evaluated in Coq (PrimFloat) agree with graphslam on %d cases' % corr['evaluations'],
-                   corr_ok, json.dumps((corr['disagreements'] + corr['coq_errors'])[:2], default=str)[:1500])
-    # direct oracle
-    n = 6 if tier == 'quick' else 100
-    ev, fails = oracle_poses.check_jacobians(seed, n)
-    rep.cov['evaluations'] = corr['evaluations'] + ev
-    rep.cov['distinct_nontrivial'] = corr['agree'] - corr['hist'].get('raise', 0) + ev - len(fails)
-    rep.cov['rule'] = ('correspondence cases: every generated (method, operand kind) definition x random operands (60% typical, 40% adversarial: '
-                       'w<0, w=0, 180deg, +-pi, huge/tiny/zero translations); non-trivial = the implementation returned a value (not an exception); '
-                       'oracle cases: central differences of the real operation vs the real Jacobian method')
-    rep.cov['samples'] = [{'correspondence_case': d} for d in corr['disagreements'][:2]] or \
-        [{'oracle': 'central difference vs analytic Jacobian', 'classes': ['R2', 'R3', 'SE2', 'SE3'], 'cases': ev}]
-    if not (ok and corr_ok and not unsup):
-        # search for a concrete failing input with a larger budget
-        if not fails:
-            ev2, fails = oracle_poses.check_jacobians(seed + 1, 300)
-            rep.cov['evaluations'] += ev2
-    if fails:
-        f = fails[0]
-        rep.violation('oracle', dict(f, what='analytic Jacobian differs from the derivative of the operation', n_failures=len(fails)),
-                      finding_key='%s.%s' % (f['class'], f['method']))
-    elif not (ok and corr_ok and not unsup):
-        what = []
-        if not ok:
-            what.append('theorem C10 (props/C10.v) or its proof cone no longer checks')
-        if not corr_ok:
-            what.append('correspondence 4.1 (generated pose model vs implementation) disagrees')
-        if unsup:
-            what.append('translator refused: ' + ', '.join(unsup))
-        rep.violation('unproved', {'what': what, 'make_log_tail': info['make_log_tail'],
-                                   'disagreements': corr['disagreements'][:3], 'coq_errors': corr['coq_errors'][:2]}, no_input=True)
+    _posecommon.run(rep, tier, seed, 'C10', ['C10'],
+                    'Jacobian obligations for 12 methods x 4 pose classes, regenerated from pose/*.py',
+                    oracle_poses.check_jacobians, 'central differences of the real operation vs the real Jacobian method',
+                    relevant=lambda d: 'jacobian' in d or '_add__' in d or '_sub__' in d or d.endswith('_inverse'))
 
 
 def replay(p):
